@@ -4,6 +4,7 @@ CONSTANTS
   BlankStops = FALSE
   EndEmptyRaises = FALSE
   GluedKeepsWater = FALSE
+  EmptyModelContinues = FALSE
   DropWaterChoices = {FALSE, TRUE}
   Emit = FALSE
 INVARIANT AllIngested
